@@ -14,8 +14,6 @@
 (*         in-place with destination before / after), &= |= ^= on a        *)
 (*         uniquely owned and on a shared BooleanBuffer                    *)
 (*   set   bit_mask::set_bits with the destination before / after          *)
-(*   bnot  buffer_unary_not at offsets that are not a multiple of 64 (known *)
-(*         finding; the `un` events carry it for the other offsets)        *)
 (*   quat  bitwise_quaternary_op_helper                                    *)
 (*   null  NullBuffer union / union_many / contains / expand               *)
 (*   ctor  construction from bits / closures / iterators                   *)
@@ -60,6 +58,7 @@ UnOK(ev) ==
        /\ ev.rem = RemainderWord(a) /\ ev.padded = ChunkLen(a) + 1, "BitChunks")
   /\ J(UnalignedOK(a, ev.ulead, ev.utrail, ev.uw), "UnalignedBitChunk")
   /\ J(ev.not = Not(a), "not")
+  /\ J(ev.bnot = Not(a), "buffer_unary_not")
   /\ J(ev.hnot = Not(a), "bitwise_unary_op_helper not")
   /\ J(ev.un = Un(ev.f1, a), "from_bitwise_unary_op")
   /\ J(ev.hun = Un(ev.f1, a), "bitwise_unary_op_helper")
@@ -75,15 +74,7 @@ UnOK(ev) ==
   /\ J(ev.d1 = ApplyUn(ev.d0, ev.off, n, ev.f1), "apply_bitwise_unary_op result")
   /\ J(Outside(ev.d1, ev.d0, ev.off, n), "apply_bitwise_unary_op frame")
 
-(* buffer_unary_not is judged separately (known finding)                     *)
-BNotWant(ev) == Not(ev.a)
-(* the wrong result of the finding: the words from the enclosing 64-bit      *)
-(* aligned offset, i.e. the result is shifted by off % 64 bits               *)
-BNotShifted(ev) == Sub(Not(ev.d0 \o Zeros(128)), ev.off - (ev.off % 64), ev.n)
-KF_BNot(ev) ==
-  IF ev.off % 64 # 0 /\ ev.bnot = BNotShifted(ev) THEN "C19-buffer-unary-not-offset" ELSE ""
-
-UnView(ev) == <<ev.a, ev.f1, ev.hb, ev.bnot, ev.count, ev.cnt2, ev.ucnt, ev.nulls, ev.ht, ev.hf, ev.iter, ev.rev, ev.it, ev.idx,
+UnView(ev) == <<ev.a, ev.f1, ev.bnot, ev.count, ev.cnt2, ev.ucnt, ev.nulls, ev.ht, ev.hf, ev.iter, ev.rev, ev.it, ev.idx,
                 ev.idx32, ev.runs, ev.cl, ev.rl, ev.chunks, ev.rem, ev.not, ev.hnot, ev.un, ev.hun, ev.fb,
                 ev.sliced, ev.bsl, ev.so, ev.sn, ev.sl, ev.fq, ev.eq1, ev.eq2,
                 Sub(ev.d1, ev.off, ev.n)>>
@@ -120,7 +111,7 @@ BigVOK(ev) ==
   /\ J(/\ ev.ulead \in 0..63 /\ ev.utrail \in 0..63 /\ RunLens(ev.uw_r) % 64 = 0
        /\ ev.uw_r = RLE(Zeros(ev.ulead) \o a \o Zeros(ev.utrail)), "big UnalignedBitChunk")
   /\ J(ev.iter_r = RLE(a), "big BitIterator")
-  /\ J(ev.not_r = RLE(Not(a)) /\ ev.hnot_r = RLE(Not(a)), "big not")
+  /\ J(ev.not_r = RLE(Not(a)) /\ ev.hnot_r = RLE(Not(a)) /\ ev.bnot_r = RLE(Not(a)), "big not")
   /\ J(ev.un_r = RLE(Un(ev.f1, a)) /\ ev.hun_r = RLE(Un(ev.f1, a)), "big unary op")
   /\ J(ev.sliced_r = RLE(a) /\ ev.bsl_r = RLE(a), "big sliced / bit_slice")
   /\ J(ev.and_r = RLE(And(a, b)) /\ ev.or_r = RLE(Or(a, b)) /\ ev.xor_r = RLE(Xor(a, b)), "big and/or/xor")
@@ -132,7 +123,7 @@ BigVOK(ev) ==
   /\ J(OptAgrees(ev.u_p, UnRLE(ev.u_r), Union(a, b)), "big NullBuffer::union")
   /\ J(ev.ex_r = RLE(Expand(a, 2)), "big NullBuffer::expand")
 BigVView(ev) == <<ev.a, ev.b, ev.f1, ev.f2, ev.idx, ev.idx32, ev.runs, ev.cl, ev.rl, ev.chunks_r, ev.rem, ev.iter_r,
-                  ev.not_r, ev.hnot_r, ev.un_r, ev.hun_r, ev.sliced_r, ev.bsl_r, ev.and_r, ev.or_r, ev.xor_r, ev.tt_r,
+                  ev.not_r, ev.hnot_r, ev.bnot_r, ev.un_r, ev.hun_r, ev.sliced_r, ev.bsl_r, ev.and_r, ev.or_r, ev.xor_r, ev.tt_r,
                   ev.htt_r, ev.sret, ev.u_p, ev.u_r, ev.ex_r>>
 
 ---------------------------------------------------------------------------
@@ -244,11 +235,7 @@ Next ==
   /\ l' = l + 1
   /\ LET ev == Rec[l] IN
      CASE ev.op = "un"   -> /\ UnOK(ev)
-                            /\ (ev.hb => JudgeKF(ev.bnot = BNotWant(ev), l, "buffer_unary_not", KF_BNot(ev)))
                             /\ TwoRuns(ev, UnView) /\ UNCHANGED bits
-       [] ev.op = "bnot" -> /\ J(Sub(ev.d0, ev.off, ev.n) = ev.a, "bnot: source holds the input")
-                            /\ JudgeKF(ev.bnot = BNotWant(ev), l, "buffer_unary_not", KF_BNot(ev))
-                            /\ UNCHANGED <<prev, bits>>
        [] ev.op = "bigs" -> BigSOK(ev) /\ TwoRuns(ev, BigSView) /\ UNCHANGED bits
        [] ev.op = "bigv" -> BigVOK(ev) /\ TwoRuns(ev, BigVView) /\ UNCHANGED bits
        [] ev.op = "bin"  -> BinOK(ev) /\ TwoRuns(ev, BinView) /\ UNCHANGED bits
